@@ -10,6 +10,12 @@ use xeh::prelude::*;
 pub const VERIF: &str = "/verif";
 pub const MAX_KEYS: usize = 12;
 
+/// evidence/ and replays/ live under /verif; XMC_OUT redirects them (used when a check is run
+/// against a deliberately broken tree, so that the committed evidence is not overwritten)
+pub fn out_dir() -> String {
+    std::env::var("XMC_OUT").unwrap_or_else(|_| VERIF.to_string())
+}
+
 // ---------------------------------------------------------------- JSON (write only)
 #[derive(Clone, Debug)]
 pub enum J {
@@ -262,10 +268,10 @@ impl Reporter {
             println!("KNOWN-FINDING: property={} key={} cases={} {}", self.prop, k, n, what);
             summary.push(jo(vec![("key", js(k.clone())), ("status", js("known-open")), ("cases", ji(*n))]));
         }
-        let _ = std::fs::create_dir_all(format!("{}/replays", VERIF));
+        let _ = std::fs::create_dir_all(format!("{}/replays", out_dir()));
         let mut code = 0;
         for (i, (k, (n, _, case))) in g.unknown.iter().enumerate() {
-            let path = format!("{}/replays/{}-{}.json", VERIF, self.prop, i);
+            let path = format!("{}/replays/{}-{}.json", out_dir(), self.prop, i);
             let rec = jo(vec![
                 ("property", js(self.prop)),
                 ("key", js(k.clone())),
@@ -369,8 +375,8 @@ impl Evidence {
             ("violations".to_string(), J::I(rep.nviol.load(Ordering::Relaxed) as i128)),
             ("known_finding_cases".to_string(), J::I(rep.nknown.load(Ordering::Relaxed) as i128)),
         ]);
-        let _ = std::fs::create_dir_all(format!("{}/evidence", VERIF));
-        let path = format!("{}/evidence/{}.json", VERIF, self.prop);
+        let _ = std::fs::create_dir_all(format!("{}/evidence", out_dir()));
+        let path = format!("{}/evidence/{}.json", out_dir(), self.prop);
         std::fs::write(&path, ev.to_string() + "\n").expect("write evidence");
     }
 }
